@@ -585,3 +585,49 @@ pub fn on_drop(id: u32) {
 pub fn on_drop_end(id: u32) {
     obj(id).drop_end_stamp.store(stamp(), SeqCst);
 }
+
+// ---------------------------------------------------------------------------------------------
+// Non-fatal reporting (sequential / enumerative checks keep going after a violation)
+
+pub static SOFT_VIOLATIONS: AtomicU64 = AtomicU64::new(0);
+static SOFT_SEEN: Mutex<Option<std::collections::HashSet<String>>> = Mutex::new(None);
+
+/// Emits a violation record without terminating; one record per distinct signature.
+pub fn report(prop: &str, sig: &str, detail: String) {
+    SOFT_VIOLATIONS.fetch_add(1, SeqCst);
+    let mut g = SOFT_SEEN.lock().unwrap();
+    let set = g.get_or_insert_with(Default::default);
+    if !set.insert(sig.to_string()) {
+        return;
+    }
+    let j = J::obj()
+        .set("type", "violation")
+        .set("property", prop)
+        .set("signature", sig)
+        .set("detail", detail)
+        .set("exec", J::obj())
+        .set("oplogs", J::A(vec![]));
+    println!("{}", j.to_string());
+}
+
+// ---------------------------------------------------------------------------------------------
+// Block tracker for checks with their own payload types
+
+pub static BLOCKS: Mutex<Option<HashMap<usize, (u32, u32)>>> = Mutex::new(None);
+
+pub fn track_blocks(kind: u16, a: usize, _b: usize) {
+    if kind == E::ALLOC || kind == E::DEALLOC {
+        let mut g = BLOCKS.lock().unwrap();
+        let m = g.get_or_insert_with(HashMap::new);
+        let e = m.entry(a).or_insert((0, 0));
+        if kind == E::ALLOC {
+            // address reuse starts a new life
+            *e = (1, 0);
+        } else {
+            e.1 += 1;
+        }
+    }
+}
+pub fn block_state(addr: usize) -> (u32, u32) {
+    BLOCKS.lock().unwrap().as_ref().and_then(|m| m.get(&addr).copied()).unwrap_or((0, 0))
+}
